@@ -180,6 +180,10 @@ def _expected_schedule(method, d, repeats):
 @scenario('C07', 'galerkin', _grid)
 def galerkin(ctx, shape, method, cplx, solver, repeats):
     """every micro system of a full run equals the Galerkin projection onto the current frame; schedule; dims; inputs unchanged"""
+    if ctx.mode == 'tv' and 1 in (shape['dims'][0], shape['dims'][-1]):
+        from symtt.core import SkipTV
+        raise SkipTV()      # boundary modes of size 1: the real LAPACK overwrites the F-contiguous core views in place, the concrete shim does not; the two
+                            # concrete runs are not comparable step by step (the symbolic run models the overwrite)
     TT = ctx.R.TT
     sle = ctx.R.sle
     d = len(shape['dims'])
